@@ -3,6 +3,7 @@
    flate.Reader to, on every run, and what compress/flate and zlib are
    compared with. Theorems here: the decoder's verdict and output are a
    function of the bits it consumed only. *)
+From V Require Import Base.DepthThms Flate.Depth XFlate.Reader XFlate.RoundTripStmt Flate.Compose.
 From V Require Import Base.Prelude Base.Prog Base.ProgThms Flate.Spec Flate.Thms Flate.Safe Flate.Fuel Flate.Canon Flate.CanonLink Base.FuelThms.
 
 (* the decoder cannot look at its source except bit by bit, in order *)
@@ -78,3 +79,23 @@ Theorem flate_header_lists_have_distinct_symbols : forall tree maxSyms numLit,
        (loop 10 (clen_body tree maxSyms) (mkClst 0 0 [])).
 Proof. exact header_lists_nodup. Qed.
 Print Assumptions flate_header_lists_have_distinct_symbols.
+
+(* the loop budget is irrelevant: any budget at least the one [inflate] chooses gives the
+   same run (a budget can only be exhausted, never change a verdict) *)
+Theorem flate_decoder_budget_irrelevant : forall input d,
+  (depth_for (length input) <= d)%nat ->
+  run (inflate_prog d) (ast_init (bytes_to_bits input)) =
+  run (inflate_prog (depth_for (length input))) (ast_init (bytes_to_bits input)).
+Proof. exact inflate_any_depth. Qed.
+Print Assumptions flate_decoder_budget_irrelevant.
+
+(* history independence: what a stream decodes to on its own (success, UnexpectedEOF) it
+   decodes to on top of ANY older output, at any byte-aligned position - a back-reference
+   that stays inside the stream's own output never sees the older bytes *)
+Theorem flate_decoding_independent_of_older_history : forall depth bits pos0 out0 r,
+  pos0 mod 8 = 0 ->
+  run (inflate_prog depth) (ast_init bits) = r -> hgood r ->
+  run (inflate_prog depth) (mkAst bits pos0 out0 (N.of_nat (length out0))) =
+  shift_result pos0 out0 r.
+Proof. exact inflate_prog_history. Qed.
+Print Assumptions flate_decoding_independent_of_older_history.
